@@ -225,6 +225,7 @@ KindOfCall(call) == IF call.op = "area" THEN "mmap" ELSE call.kind
 SpecConformant(mem, name, it) ==
   CASE name = "framebuffer" -> FbTypeSpec(mem, it).k # "panic"
     [] name = "mmap" -> MmapAreasSpec(mem, it).k # "panic"
+    [] name = "rsdpv2" -> U32At(mem, it.at + 28) <= RsdpV2Max
     [] OTHER -> TRUE
 \* C04: first-match selection and exact decoding for conformant tags (and "nothing" when absent)
 C04_Accept(c, trk, call, o) ==
